@@ -80,7 +80,7 @@ func (w *cworld) mkValue(tok string) statecache.Value {
 	}
 	switch w.r.Intn(5) {
 	case 0:
-		ln := util.NewLeafNode(util.Path("ab"), util.Path("cdef"), 3, &util.SecureSerializableValue{Buffer: []byte(tok)})
+		ln := util.NewLeafNode(util.Path("ab"), util.Path("cdef"), 3, &util.SecureSerializableValue{Buffer: []byte(tok + ":bal:100:" + tok)}) // payload with the node encoding's separator byte
 		// a node re-marked by a later round (the pruning sweep does this): version and origin differ
 		ln.SetVersion(3 + util.Sequence(fw.Hash64(tok)%4))
 		return ln
@@ -427,6 +427,25 @@ func (w *cworld) lateWrite(c *fw.Ctx, b *cblock, key string, viaTxn bool) {
 	if b.late == nil {
 		b.late = map[string]cval{}
 	}
+	defer func() {
+		// a second Commit of the same (already committed) block cache changes nothing anywhere: the late entries stay in the
+		// object, the state cache keeps what was committed
+		if w.r.Intn(3) == 0 {
+			b.bc.Commit()
+			c.Tracef("%s: Commit() again on the committed block cache (must be ignored)", b.hash)
+			c.Count("repeated_commits_of_a_committed_block_cache", 1)
+		}
+	}()
+	if viaTxn && w.r.Intn(3) == 0 { // a late transaction removes the key
+		tc := statecache.NewTransactionCache(b.bc)
+		tc.Remove(key)
+		tc.Commit()
+		c.Tracef("%s (committed): late transaction removes %s and commits into the block cache", b.hash, key)
+		b.late[key] = cval{tomb: true}
+		c.Count("late_writes_into_committed_block_caches", 1)
+		c.Count("late_removals_into_committed_block_caches", 1)
+		return
+	}
 	tok, val := w.newToken(b, key)
 	if viaTxn {
 		tc := statecache.NewTransactionCache(b.bc)
@@ -472,7 +491,7 @@ func (w *cworld) getBlockCtx(c *fw.Ctx, key string, b *cblock) bool {
 		if v, late := b.late[key]; late {
 			got, ok := b.bc.Get(key)
 			c.Tracef("get %s in block cache %s (committed, late write) -> %v", key, b.hash, ok)
-			return w.judge(c, fmt.Sprintf("BlockCache(%s, committed, written again afterwards).Get(%s)", b.hash, key), key, got, ok, v.tok, true, true, "")
+			return w.judge(c, fmt.Sprintf("BlockCache(%s, committed, written again afterwards).Get(%s)", b.hash, key), key, got, ok, v.tok, !v.tomb, !v.tomb, "")
 		}
 		tok, found, sure, depth := w.truth(key, b.hash)
 		sig := w.overflowSig(key)
@@ -504,7 +523,7 @@ func (w *cworld) getTxnCtx(c *fw.Ctx, key string, t *ctxn) bool {
 		}
 		if v, late := t.blk.late[key]; late {
 			got, ok := t.tc.Get(key)
-			return w.judge(c, fmt.Sprintf("TransactionCache(%s, block committed and written again afterwards).Get(%s)", t.name, key), key, got, ok, v.tok, true, true, "")
+			return w.judge(c, fmt.Sprintf("TransactionCache(%s, block committed and written again afterwards).Get(%s)", t.name, key), key, got, ok, v.tok, !v.tomb, !v.tomb, "")
 		}
 		tok, found, sure, depth := w.truth(key, t.blk.hash)
 		sig := w.overflowSig(key)
